@@ -7,7 +7,9 @@ SRC=/tmp/seed/out/$ID; [ -d seeded/$ID ] && [ ! -d $SRC ] && SRC=$PWD/seeded/$ID
 [ -f seeded/$ID/patch.diff ] && SRC=$PWD/seeded/$ID
 D=$(mktemp -d /tmp/vseed.XXXXXX); trap 'rm -rf "$D"; rm -rf "$VERIF_ROOT/.build/$(echo -n "$D/repo" | md5sum | cut -c1-8)"' EXIT
 mkdir -p $D/repo; (cd /repo && git ls-files -z | xargs -0 cp --parents -t $D/repo)
-DEMO=$(ls $SRC/*_test.go | head -1); CMD=$(cat $SRC/demo_cmd.txt | grep "go test" | head -1)
+DEMO=$(ls $SRC/*_test.go 2>/dev/null | head -1)
+if [ -z "$DEMO" ]; then T=$(ls $SRC/*_test.go.txt | head -1); DEMO=$D/$(basename ${T%.txt}); cp $T $DEMO; fi
+CMD=$(cat $SRC/demo_cmd.txt | grep "go test" | head -1)
 PKG=$(grep -l . $DEMO >/dev/null; head -40 $DEMO | grep -m1 '^package ' | awk '{print $2}')
 # which directory does the demo belong to? take it from the patch's first file unless demo_cmd names one
 DIR=$(echo "$CMD" | grep -o '\./[a-z/]*' | tail -1); [ -z "$DIR" ] && DIR=./$(grep -m1 '^+++ b/' $SRC/patch.diff | sed 's#+++ b/##' | xargs dirname)
